@@ -78,6 +78,10 @@ func NewDir(conf config.Config, opts ...Opts) Store {
 			}
 			// warning, this will block, ensure repos are always held open for a minimal time (this mostly affects the design of tests)
 			if !*dr.conf.Storage.ReadOnly {
+				// a negative frequency disables the collection, also the one of a repository that leaves the cache (at Close)
+				if dr.conf.Storage.GC.Frequency < 0 {
+					return nil
+				}
 				if err := dr.gc(); err != nil {
 					return err
 				}
